@@ -29,14 +29,44 @@ Ltac crush := crush_with rnd sc rnd_sc sc_pos.
 (** * 2. Scale-free views: bit-identical answers *)
 
 (** ** Rsi *)
+Definition pair_sc (p : R * R) : R * R := (sc * fst p, sc * snd p).
 Definition rsi_f (st : @rsi_st R) : @rsi_st R :=
   {| rsi_gain := sc * rsi_gain st; rsi_loss := sc * rsi_loss st; rsi_oldref := sc * rsi_oldref st;
      rsi_lastval := sc * rsi_lastval st; rsi_q := scl (rsi_q st); rsi_out := rsi_out st |}.
 
+(** the sums recomputed over the window: every change scales, [change / wl] scales ([wl] is a constant),
+    the tests against 0 are unchanged, so both sums scale (and an error occurs on one side iff on the other) *)
+Lemma rsi_sums_sc wl q : forall prev g l,
+  @rsi_sums R PO wl (scl q) (sc * prev) (sc * g) (sc * l) = rmap pair_sc (@rsi_sums R PO wl q prev g l).
+Proof.
+  induction q as [|y q IH]; intros prev g l; [reflexivity|].
+  cbn [Pow2Base.scl map rsi_sums]. fold (scl q). opsimp. sc_rw.
+  destruct (Rltb 0 (rnd (y - prev))); destruct (Reqb wl 0); cbn [bind rmap]; try reflexivity;
+    sc_rw; apply IH.
+Qed.
+
 Lemma rsi_step_sc n st v : @rsi_step R PO n (rsi_f st) (sc * v) = rmap rsi_f (@rsi_step R PO n st v).
 Proof.
   destruct st as [g l oref lv q o]. unfold rsi_step, rsi_f.
-  cbn [rsi_gain rsi_loss rsi_oldref rsi_lastval rsi_q rsi_out]. crush.
+  cbn [rsi_gain rsi_loss rsi_oldref rsi_lastval rsi_q rsi_out].
+  assert (Hs : forall q0 r, @rsi_sums R PO (@sofnat R PO n) (scl q0) (sc * r) (@s0 R PO) (@s0 R PO)
+                 = rmap pair_sc (@rsi_sums R PO (@sofnat R PO n) q0 r (@s0 R PO) (@s0 R PO))).
+  { intros q0 r. cbn [s0 RndOps]. rewrite <- (sc_0 sc) at 1 2. apply rsi_sums_sc. }
+  destruct q as [|x q]; cbn [Pow2Base.scl map]; [|fold (scl q)].
+  - destruct (Nat.leb n (length (@nil R))); cbn [pop_front bind app]; [reflexivity|].
+    destruct (Nat.ltb (length [sc * v]) n) eqn:E; cbn [length] in E |- *; rewrite E; [crush|].
+    change [sc * v] with (scl [v]). rewrite Hs.
+    destruct (@rsi_sums R PO (@sofnat R PO n) [v] v s0 s0) as [[a b]|e]; unfold pair_sc; crush.
+  - change (sc * x :: scl q) with (scl (x :: q)). rewrite (scl_length sc).
+    destruct (Nat.leb n (length (x :: q))); cbn [Pow2Base.scl map pop_front bind]; fold (scl q).
+    + rewrite (scl_single sc), <- (scl_app sc), (scl_length sc).
+      destruct (Nat.ltb (length (q ++ [v])) n); [crush|].
+      rewrite Hs. destruct (@rsi_sums R PO (@sofnat R PO n) (q ++ [v]) x s0 s0) as [[a b]|e]; unfold pair_sc; crush.
+    + change (sc * x :: scl q) with (scl (x :: q)).
+      rewrite (scl_single sc), <- (scl_app sc), (scl_length sc).
+      destruct (Nat.ltb (length ((x :: q) ++ [v])) n); [crush|].
+      rewrite Hs. destruct (@rsi_sums R PO (@sofnat R PO n) ((x :: q) ++ [v]) oref s0 s0) as [[a b]|e];
+        unfold pair_sc; crush.
 Qed.
 
 (** Rsi is bit-identical on the scaled history (errors included) *)
@@ -55,10 +85,32 @@ Definition myrsi_f (st : @myrsi_st R) : @myrsi_st R :=
   {| my_cu := sc * my_cu st; my_cd := sc * my_cd st; my_out := my_out st; my_q := scl (my_q st);
      my_lastval := sc * my_lastval st; my_oldest := sc * my_oldest st |}.
 
+Lemma myrsi_sums_sc q : forall prev cu cd,
+  @myrsi_sums R PO (scl q) (sc * prev) (sc * cu) (sc * cd) = pair_sc (@myrsi_sums R PO q prev cu cd).
+Proof.
+  induction q as [|y q IH]; intros prev cu cd; [reflexivity|].
+  cbn [Pow2Base.scl map myrsi_sums]. fold (scl q). opsimp. sc_rw.
+  destruct (Rltb prev y); apply IH.
+Qed.
+
 Lemma myrsi_step_sc n st v : @myrsi_step R PO n (myrsi_f st) (sc * v) = rmap myrsi_f (@myrsi_step R PO n st v).
 Proof.
   destruct st as [cu cd o q lv old]. unfold myrsi_step, myrsi_f.
-  cbn [my_cu my_cd my_out my_q my_lastval my_oldest]. crush.
+  cbn [my_cu my_cd my_out my_q my_lastval my_oldest].
+  assert (Hs : forall q0 r, @myrsi_sums R PO (scl q0) (sc * r) (@s0 R PO) (@s0 R PO)
+                 = pair_sc (@myrsi_sums R PO q0 r (@s0 R PO) (@s0 R PO))).
+  { intros q0 r. cbn [s0 RndOps]. rewrite <- (sc_0 sc) at 1 2. apply myrsi_sums_sc. }
+  destruct q as [|x q]; cbn [Pow2Base.scl map]; [|fold (scl q)].
+  - destruct (Nat.leb n (length (@nil R))); cbn [pop_front bind app]; [reflexivity|].
+    change [sc * v] with (scl [v]). rewrite Hs.
+    destruct (@myrsi_sums R PO [v] v s0 s0) as [a b]; unfold pair_sc; crush.
+  - change (sc * x :: scl q) with (scl (x :: q)). rewrite (scl_length sc).
+    destruct (Nat.leb n (length (x :: q))); cbn [Pow2Base.scl map pop_front bind]; fold (scl q).
+    + rewrite (scl_single sc), <- (scl_app sc).
+      rewrite Hs. destruct (@myrsi_sums R PO (q ++ [v]) x s0 s0) as [a b]; unfold pair_sc; crush.
+    + change (sc * x :: scl q) with (scl (x :: q)).
+      rewrite (scl_single sc), <- (scl_app sc).
+      rewrite Hs. destruct (@myrsi_sums R PO ((x :: q) ++ [v]) old s0 s0) as [a b]; unfold pair_sc; crush.
 Qed.
 
 (** MyRSI is bit-identical on the scaled history *)
@@ -94,7 +146,6 @@ Proof.
 Qed.
 
 (** ** HLNormalizer (scaling only; offsets are NOT preserved by rounded arithmetic) *)
-Definition pair_sc (p : R * R) : R * R := (sc * fst p, sc * snd p).
 
 Lemma extent_fold_sc q : forall mm,
   fold_left (fun (mm : R * R) v =>
